@@ -18,6 +18,10 @@ Proof. repeat split; reflexivity. Qed.
 
 (* smtp.go: STARTTLS expects 220 (part of gen_expects_std) and StartTLS ends with c.ehlo(); smtp_ehlo.go: the
    extension map is assigned unconditionally after an accepted EHLO (part of gen_dialogue_repaired) *)
+(* smtp.go dataCloser.Close reads the whole (possibly multi-line) reply: one reply per command in the model's queue *)
+Lemma gen_eod_reads_full_response : Gen.eod_reads_full_response = true.
+Proof. reflexivity. Qed.
+
 Lemma gen_starttls_says_ehlo : Gen.starttls_says_ehlo = true.
 Proof. reflexivity. Qed.
 
